@@ -184,8 +184,16 @@ func prop(c harness.Case) harness.Result {
 		shared = &cm.HTMLRenderer{}
 		res.Labels = append(res.Labels, "one_renderer_value_reconfigured")
 	}
-	for _, soft := range []cm.SoftBreakBehavior{cm.SoftBreakPreserve, cm.SoftBreakSpace, cm.SoftBreakHarden} {
-		for _, ign := range []bool{false, true} {
+	softs := []cm.SoftBreakBehavior{cm.SoftBreakPreserve, cm.SoftBreakSpace, cm.SoftBreakHarden}
+	igns := []bool{false, true}
+	if c.I["large"] == 1 {
+		// large documents: two configurations (the comparison is the same, the
+		// cost is in the size)
+		softs, igns, specs = softs[:1], igns[:1], []string{"nil", "gfm"}
+		res.Labels = append(res.Labels, "large_document")
+	}
+	for _, soft := range softs {
+		for _, ign := range igns {
 			for _, spec := range specs {
 				if err := one(shared, blocks, refs, soft, ign, spec); err != nil {
 					res.Err = err
@@ -233,6 +241,21 @@ func plan() harness.Plan {
 		{Name: "render", Quick: 30000, Thorough: 400000, Gen: genCase(gen.Doc()), Prop: prop, Rule: rule},
 		{Name: "render_html", Quick: 15000, Thorough: 200000, Gen: genCase(gen.HTMLSoup()), Prop: prop, Rule: "raw-HTML-heavy inputs (comments, CDATA, upper/mixed-case tag names of equal lengths, raw-text elements): " + rule},
 		{Name: "render_sinks", Quick: 15000, Thorough: 200000, Gen: genCase(gen.Sink()), Prop: prop, Rule: "hostile payloads (quotes, references, percent escapes, NUL, invalid UTF-8, white-space references) placed where text reaches an attribute or an element (destinations, titles, info strings, alt text, autolinks, list starts): " + rule},
+		{Name: "render_large", Quick: 60, Thorough: 1500, Gen: func(t *rapid.T) harness.Case {
+			var in []byte
+			switch rapid.IntRange(0, 2).Draw(t, "shape") {
+			case 0:
+				in = gen.LongDoc(20000, 90000).Draw(t, "in")
+			case 1:
+				// one root block whose HTML runs to tens of kilobytes, alone or last
+				in = []byte("intro\n\n" + strings.Repeat("word *em* `code` &amp; <b> [l](/u) ", rapid.IntRange(400, 3000).Draw(t, "reps")) + "\n")
+			default:
+				in = append(gen.LongDoc(20000, 60000).Draw(t, "in"), []byte("\n\n```\n"+strings.Repeat("code line <&>\n", rapid.IntRange(1500, 4000).Draw(t, "lines"))+"```\n")...)
+			}
+			c := harness.Case{In: in}
+			c.SetI("large", 1)
+			return c
+		}, Prop: prop, Rule: "documents whose HTML runs from 30 KB to several hundred KB (hundreds of root blocks; one huge paragraph; a long document that ends in a huge code block) under two configurations and every kind of writer: anything Render does in chunks or above a size; " + rule},
 		{Name: "render_lines", Quick: 15000, Thorough: 200000, Gen: genCase(gen.Lines()), Prop: prop, Rule: "G2 only: " + rule},
 	}}
 }
